@@ -101,7 +101,9 @@ impl Counter {
     /// Decrement counter by 1 and return true if crossing limit.
     #[inline(always)]
     pub(crate) fn dec(&self) -> bool {
-        self.counter.fetch_sub(1, Ordering::Relaxed) == self.limit
+        // counter starts at 1, so the worker held `limit` connections (and was marked unavailable
+        // by `inc`) exactly when the value before this decrement is `limit + 1`.
+        self.counter.fetch_sub(1, Ordering::Relaxed) - 1 == self.limit
     }
 
     pub(crate) fn total(&self) -> usize {
